@@ -501,7 +501,7 @@ func runC01(c *vx.Ctx) {
 	c.Assume("block context (base fee, exchange rate, prime terminus, eligibility) comes from a real zone node at height 3; fork regime R1")
 	maxLen := 2
 	if c.Thorough() {
-		maxLen = 3
+		maxLen = 4
 	}
 	if c.Wants("sequences") {
 		p := c.Part("sequences")
